@@ -81,9 +81,12 @@ DTS = [
     ("0.01", 0.01, 100, "0.01"),
     ("0.25", 0.25, 4, "0.25"),
     ("1/256", 1 / 256, 256, "0.00390625"),
+    # a step whose reciprocal is not an integer ("steps per year" does not exist): seeded C13-27
+    ("0.3", 0.3, None, "0.3"),
 ]
 EXTRA_DTS = [("1/360", 1 / 360, 360, None), ("1/252", 1 / 252, 252, None), ("0.05", 0.05, 20, "0.05"),
-             ("1/24", 1 / 24, 24, None), ("0.002", 0.002, 500, "0.002"), ("1/7", 1 / 7, 7, None)]
+             ("1/24", 1 / 24, 24, None), ("0.002", 0.002, 500, "0.002"), ("1/7", 1 / 7, 7, None),
+             ("0.003", 0.003, None, "0.003"), ("0.0075", 0.0075, None, "0.0075")]
 
 
 def pairs_for(dtsym, K):
